@@ -82,19 +82,39 @@ def gsched (prog : List MStep) (init max : Nat) (shared : Bool) (schedule : Stri
   let s := r.1
   let rets := (List.range n).map (fun t => statusStr (s.2 t))
   let blocked := r.2.map (fun t => s!" blocked {t}")
-  s!"ret {" ".intercalate rets} pages {s.1.mem.pages} size {s.1.mem.size}{String.join blocked}"
+  -- an operation that has returned while the memory's mutex is still locked by it
+  let held := match s.1.mutex with
+    | some t => (match (s.2 t).st with | .done _ => s!" held {t}" | _ => "")
+    | none => ""
+  s!"ret {" ".intercalate rets} pages {s.1.mem.pages} size {s.1.mem.size}{String.join blocked}{held}"
 
-def gseq (prog : List MStep) (init max : Nat) (shared : Bool) (deltas : List Nat) : String :=
+/-- one operation alone, tracking the mutex: `none` = stuck, `some (m, v, held)`; `blocked` when it meets a mutex that an
+    earlier operation left locked -/
+def runOp (imm : Imm) (prog : List MStep) : Nat → Mem → Nat → (Nat → Nat) → Bool → Except String (Mem × Nat × Bool)
+  | 0, _, _, _, _ => .error "stuck"
+  | n + 1, m, pc, ρ, held =>
+    match act imm prog m pc ρ with
+    | .cont m' pc' ρ' => runOp imm prog n m' pc' ρ' held
+    | .lock pc' => if held then .error "blocked-forever" else runOp imm prog n m pc' ρ true
+    | .unlock pc' => runOp imm prog n m pc' ρ false
+    | .ret v => .ok (m, v, held)
+    | .abort => .error "abort"
+    | .stuck => .error "stuck"
+
+/-- consecutive operations of ONE thread: `some d` = memory.grow(d), `none` = memory.size -/
+def gseq (prog : List MStep) (init max : Nat) (shared : Bool) (ops : List (Option Nat)) : String :=
   let imm : Imm := { maxPages := max, shared := shared }
-  let rec go (m : Mem) (ds : List Nat) (acc : List String) : Mem × List String :=
+  let rec go (m : Mem) (held : Bool) (ds : List (Option Nat)) (acc : List String) : String :=
     match ds with
-    | [] => (m, acc.reverse)
-    | d :: rest =>
-      match runSeq imm prog 200 m 0 (initRegs (d % 4294967296)) with
-      | some (m', v) => go m' rest (toString v :: acc)
-      | none => (m, ("stuck" :: acc).reverse)
-  let r := go (allocMem init max shared) deltas []
-  s!"ret {" ".intercalate r.2} pages {r.1.pages} size {r.1.size}"
+    | [] => s!"ret {" ".intercalate acc.reverse} pages {m.pages} size {m.size}"
+    | op :: rest =>
+      let r := match op with
+        | some d => runOp imm prog 200 m 0 (initRegs (d % 4294967296)) held
+        | none => runOp imm Gen.sizeSteps 200 m 0 (initRegs 0) held
+      match r with
+      | .ok (m', v, held') => go m' held' rest (toString v :: acc)
+      | .error e => s!"ret {" ".intercalate acc.reverse} {e}"
+  go (allocMem init max shared) false ops []
 
 /-- the byte pattern the real-side harness writes into the pages in use -/
 def pat (i : Nat) : Nat := ((i * 31 + 7) % 256) ||| 1
@@ -135,7 +155,8 @@ def cmd (ws : List String) : Option String :=
     | some prog, some i, some m, some sh, some os => some (gsched prog i m (sh != 0) schedule os)
     | _, _, _, _, _ => some "err args"
   | "gseq" :: p :: init :: max :: shared :: deltas =>
-    match progOf p, init.toNat?, max.toNat?, shared.toNat?, deltas.mapM (·.toNat?) with
+    match progOf p, init.toNat?, max.toNat?, shared.toNat?,
+        deltas.mapM (fun d => if d == "s" then some none else d.toNat?.map some) with
     | some prog, some i, some m, some sh, some ds => some (gseq prog i m (sh != 0) ds)
     | _, _, _, _, _ => some "err args"
   | "gcontent" :: p :: init :: max :: fail :: deltas =>
